@@ -116,9 +116,58 @@ FILLERS = {
                                                         cos_beta_minus_alpha='get_cos_beta_minus_alpha()', lambda5='get_LambdaFive()', lambda67='get_LambdaSixSeven()')),
 }
 
+FILLER_REPLAY = r'''
+#include "gm2calc/THDM.hpp"
+#include "gm2calc/SM.hpp"
+#include "gm2calc/gm2_1loop.hpp"
+#include "gm2calc/gm2_2loop.hpp"
+#include "gm2calc/gm2_error.hpp"
+#include "THDM/gm2_1loop_helpers.hpp"
+#include "THDM/gm2_2loop_helpers.hpp"
+#include <cstdio>
+#include <cmath>
+// the REAL public function against the kernel called with a parameter struct filled by the DOCUMENTED table (field = model getter), on mass-basis models including the
+// SM-like configuration m_h == m_hSM
+int main() {
+   int bad = 0;
+   const double mhs[] = {125.0, 125.09, 95.0};
+   for (double mh : mhs) for (int type = 1; type <= 4; type++) for (double tb : {0.5, 3.0, 40.0}) {
+      gm2calc::thdm::Mass_basis b; b.yukawa_type = gm2calc::thdm::int_to_cpp_yukawa_type(type);
+      b.mh = mh; b.mH = 400; b.mA = 420; b.mHp = 440; b.sin_beta_minus_alpha = 0.999; b.lambda_6 = 0.1; b.lambda_7 = -0.2; b.tan_beta = tb; b.m122 = 40000;
+      gm2calc::SM sm; sm.set_mh(125.09);
+      gm2calc::thdm::Config cfg; cfg.running_couplings = false;
+      try {
+         const gm2calc::THDM model(b, sm, cfg);
+         gm2calc::thdm::@STRUCT@ pars;
+@FILL@
+         const double want = gm2calc::thdm::@KERNEL@(pars);
+         const double got = gm2calc::@FN@(model);
+         if (!(got == want || std::fabs(got - want) <= 1e-13 * std::fabs(want))) {
+            bad++; std::printf("mh=%g type %d tan(beta)=%g: @FN@(model) = %.12e, @KERNEL@(documented parameters) = %.12e\n", mh, type, tb, got, want);
+         }
+      } catch (const gm2calc::Error&) {}
+   }
+   std::printf("%d differences between @FN@ and the kernel on the documented parameters\n", bad);
+   return bad ? 1 : 0;
+}
+'''
+
+def make_filler_replay(fn):
+    def rep(model, wd):
+        from gm2v import native
+        import subprocess
+        file, callee, table = FILLERS[fn]
+        struct = {'amu1L': 'THDM_1L_parameters', 'amu2L_F': 'THDM_F_parameters', 'amu2L_B': 'THDM_B_parameters'}[callee]
+        fill = ''.join('         pars.%s = model.%s;\n' % (fld, expr) for fld, expr in sorted(table.items()))
+        src = FILLER_REPLAY.replace('@STRUCT@', struct).replace('@FILL@', fill).replace('@KERNEL@', callee).replace('@FN@', fn)
+        exe = native.build_against_library(wd, src, name='filler_' + fn)
+        r = subprocess.run([exe], capture_output=True, text=True, timeout=300)
+        return r.returncode == 1, r.stdout.strip()[-1500:]
+    return rep
+
 def make_filler(fn):
     file, callee, table = FILLERS[fn]
-    @obligation('C10.filler.%s' % fn, fns=[(file, fn)])
+    @obligation('C10.filler.%s' % fn, fns=[(file, fn)], replay=make_filler_replay(fn))
     def ob(ctx, fn=fn, file=file, callee=callee, table=table):
         """filler contract: every field of the parameter struct handed to the a_mu kernel equals the documented model getter
         (struct documentation in gm2_*loop_helpers.hpp), the kernel is called exactly once and its result is returned unchanged"""
